@@ -16,7 +16,7 @@ PROPS = {
     "C01": dict(
         title="A DAG call returns exactly what the plain Python function would return",
         core=["REF-DEREF", "REF-KEY", "REF-FIELDS", "REF-ASDICT"],
-        aux=["REF-MAT", "REF-SHAPE", "REF-OPS", "REF-NI", "SCH-ARMS", "OWN-ARGS", "REF-GETITEM", "REF-RESERVED", "REF-TRACE", "VAL-ARGCOUNT", "OWN-STRICT", "REF-SEED", "REF-PREFIX", "REF-ACTIVE-BUILD", "REF-RESULTTRY", "REF-FUNCOPY", "REF-UNWRAP"],
+        aux=["REF-MAT", "REF-SHAPE", "REF-OPS", "REF-NI", "SCH-ARMS", "OWN-ARGS", "REF-GETITEM", "REF-RESERVED", "REF-TRACE", "VAL-ARGCOUNT", "OWN-STRICT", "REF-SEED", "REF-PREFIX", "REF-ACTIVE-BUILD", "REF-RESULTTRY", "REF-FUNCOPY", "REF-UNWRAP", "REF-KWNAME", "REF-FUNTRANSIENT"],
         explanation="Necessary structural conditions of value equivalence, re-derived from source on every run: every reference "
                     "(node id + key path) is dereferenced only through the accessor; key paths survive every re-identification; "
                     "every reference field is handled at every reference-handling site and restored after dataclasses.asdict; "
@@ -28,7 +28,7 @@ PROPS = {
     "C02": dict(
         title="No node starts before all of its dependencies have finished",
         core=["SCH-ORIGIN", "SCH-RSET", "SCH-DONE", "SCH-PRUNE", "REF-FIELDS"],
-        aux=["SCH-ROOTS", "REF-DEREF", "REF-MAT", "ERR-CHECK", "SCH-TASKDONE", "REF-SEED", "SCH-BIDICT", "REF-RESULTTRY"],
+        aux=["SCH-ROOTS", "REF-DEREF", "REF-MAT", "ERR-CHECK", "SCH-TASKDONE", "REF-SEED", "SCH-BIDICT", "REF-RESULTTRY", "REF-KWNAME", "REF-NONEKEY"],
         explanation="Inductive argument over all loop paths of the scheduler: INV 'every id in the runnable set has in-degree 0 in "
                     "the remaining graph, which holds exactly the unfinished selected nodes' is established by the prune and "
                     "preserved by every event class (selection, removal, dispatch, wait, release of successors); a dispatch only "
@@ -101,7 +101,7 @@ PROPS = {
     "C09": dict(
         title="Every execution terminates, whatever order nodes finish in",
         core=["SCH-PROGRESS", "SCH-EXIT", "SCH-RSET"],
-        aux=["SCH-EMPTYWAIT", "SCH-DEACT", "GT-CYCLE", "ERR-CHECK", "SCH-COUNT", "GT-DEBUGINC", "SCH-DONE"],
+        aux=["SCH-EMPTYWAIT", "SCH-DEACT", "GT-CYCLE", "ERR-CHECK", "SCH-COUNT", "GT-DEBUGINC", "SCH-DONE", "GT-NORECURSE"],
         explanation="Ranking argument (|graph|, |runnable|) per loop path: every feasible path shrinks the graph, moves a node "
                     "from runnable to in flight, or passes a wait that provably blocks on a non-empty set; no exit but 'graph "
                     "empty'; released roots are never dropped; cycles rejected at construction.",
@@ -111,7 +111,7 @@ PROPS = {
     "C10": dict(
         title="twz_active runs a node iff the supplied value is truthy; otherwise None",
         core=["REF-DEREF", "SCH-DEACT", "REF-FIELDS"],
-        aux=["SCH-ACTIVE", "REF-FLAGPRED", "REF-KEY", "REF-ASDICT", "REF-ACTIVE-BUILD", "REF-GETITEM", "REF-REWIRE", "REF-NONEKEY", "REF-SEEDACT"],
+        aux=["SCH-ACTIVE", "REF-FLAGPRED", "REF-KEY", "REF-ASDICT", "REF-ACTIVE-BUILD", "REF-GETITEM", "REF-REWIRE", "REF-NONEKEY", "REF-SEEDACT", "REF-SETUPOUT"],
         explanation="The flag is decided by the truthiness of the reference dereferenced through the accessor (key path applied); "
                     "deactivated arm = no dispatch + graph removal + release of successors; the flag is a dependency edge; the "
                     "nested-DAG flag is attached to stubs and inner nodes under one presence predicate.",
@@ -141,7 +141,7 @@ PROPS = {
     "C13": dict(
         title="Debug nodes run only when enabled and never influence production results",
         core=["GT-GATE", "GT-CARRY"],
-        aux=["VAL-DEBUGDEP", "SIB-DAG", "VAL-DEBUGSETUP", "GT-DEBUGINC", "REF-WRAPDICT"],
+        aux=["VAL-DEBUGDEP", "SIB-DAG", "VAL-DEBUGSETUP", "GT-DEBUGINC", "REF-WRAPDICT", "GT-STALEGATE"],
         explanation="Every graph reaching the scheduler passed the debug gate or the setup-only filter; the gate subtracts using a "
                     "table that actually carries the markers (typestate); flag-on inclusion requires all predecessors selected; "
                     "build-time refusal of non-debug depending on debug.",
@@ -190,7 +190,7 @@ PROPS = {
     "C18": dict(
         title="An execution restarted from a cache file reuses, not recomputes, cached results",
         core=["CACHE-FLOW"],
-        aux=["CACHE-SHAPE", "CACHE-EXCL", "SCH-PRUNE", "CACHE-PRIORITY", "GT-ALIAS", "GT-POP", "GT-ALIASNORM", "REF-STABLEID"],
+        aux=["CACHE-SHAPE", "CACHE-EXCL", "SCH-PRUNE", "CACHE-PRIORITY", "GT-ALIAS", "GT-POP", "GT-ALIASNORM", "REF-STABLEID", "CACHE-ENTRY"],
         explanation="Flow: the unpickled mapping reaches, entry by entry and overriding existing entries, the results handed to "
                     "the scheduler; writer and reader agree on the shape; the cache_deps_of ids are all excluded on write; cached "
                     "ids are pruned before scheduling.",
@@ -200,7 +200,7 @@ PROPS = {
     "C19": dict(
         title="A composed DAG computes the outputs from the supplied intermediate values",
         core=["REF-FIELDS", "REF-KEY", "OWN-COMPOSE"],
-        aux=["VAL-COMPOSE", "VAL-COMPOSE-ANC", "VAL-COMPOSE-OVERLAP", "REF-REWIRE", "GT-ALIAS", "GT-POP", "REF-FUNCOPY", "OWN-NODEEPVAL"],
+        aux=["VAL-COMPOSE", "VAL-COMPOSE-ANC", "VAL-COMPOSE-OVERLAP", "REF-REWIRE", "GT-ALIAS", "GT-POP", "REF-FUNCOPY", "OWN-NODEEPVAL", "GT-NORECURSE"],
         explanation="Rewiring covers every reference field and keeps key paths; in-place edits touch deep copies only; the three "
                     "ValueErrors are reachable with tests not weaker than stated (input-depends-on-input uses the ancestor "
                     "closure).",
@@ -210,7 +210,7 @@ PROPS = {
     "C20": dict(
         title="Calling a DAG inside a DAG is equivalent to inlining it",
         core=["REF-PREFIX", "REF-ASDICT", "REF-KEY", "REF-SEED"],
-        aux=["LCK-PAIR", "REF-SHAPE", "REF-UNIQ", "REF-FLAGPRED", "REF-GETITEM", "REF-TRACE", "SIB-CTOR", "REF-STABLEID", "REF-SAMENODE", "REF-STUBEXEC", "REF-FUNCOPY"],
+        aux=["LCK-PAIR", "REF-SHAPE", "REF-UNIQ", "REF-FLAGPRED", "REF-GETITEM", "REF-TRACE", "SIB-CTOR", "REF-STABLEID", "REF-SAMENODE", "REF-STUBEXEC", "REF-FUNCOPY", "REF-KWNAME"],
         explanation="Every inner id reaching an outer table passes the prefixer exactly once; stub ids are not seeded with "
                     "defaults; asdict restoration of every reference field; return-shape agreement; prefix push/pop paired; "
                     "registration ids call-site unique (reports the known collision).",
